@@ -190,4 +190,32 @@ def CacheL.take (c : CacheL) (k v : Nat) (f : Fetch) : CacheL × List Call × Op
 /-- the expiry callback: `cache.Del(key)`. -/
 def cacheLCb : Cb CacheL := fun c k _ => c.del k
 
+/-- operations of a client of the Cache. -/
+inductive COp where
+  | set (k v : Nat) (e : Int)
+  | put (k v : Nat)
+  | del (k : Nat)
+  | get (k : Nat)
+  | take (k v : Nat) (f : Fetch)
+  | tick
+  deriving Repr, DecidableEq
+
+/-- the cache after the operation's own statements and the calls it issues on the wheel (a tick is the ticker's). -/
+def CacheL.client (c : CacheL) : COp → CacheL × List Call
+  | .set k v e => c.setWithExpire k v e
+  | .put k v => c.set k v
+  | .del k => c.del k
+  | .get k => ((c.doGet k).1, (c.doGet k).2.1)
+  | .take k v f => ((c.take k v f).1, (c.take k v f).2.1)
+  | .tick => (c, [.tick])
+
+/-- one operation over the timer table: its calls in program order, then the expiry callbacks of everything that
+fired (fuel: the number of pending timers bounds what one tick can fire). -/
+def cacheStep (st : Spec.Api × CacheL) (op : COp) : Spec.Api × CacheL :=
+  let x := st.2.client op
+  let i := ApiG.issue Spec.step 0 st.1 x.2
+  let q := ApiG.settle Spec.step cacheLCb (st.1.inner.length + 1) i.1 x.1 i.2.1
+  (q.api, q.cb)
+
+
 end GoZero.C12
